@@ -111,6 +111,7 @@ def main():
             eps_prev = np.zeros(len(path[0]))
             psi_prev = float(np.asarray(beh.Compute_psi(fe(np.zeros(6)), z))[0, 0])
             ident0 = dict(behavior=name, path_seed=rep)
+            batch = []   # (strain, committed state, previous strain, stress, new state) of every step walked point by point
             for k, eps in enumerate(path):
                 ident = dict(ident0, step=k, strain=eps.tolist())
                 zold = np.asarray(z).copy()
@@ -156,7 +157,7 @@ def main():
                             if f > 1e-7 * sy:
                                 res.fail(f"stress outside the yield surface behavior={name}", f"f = {f:.3e} > 0 after integration", ident)
                         except Exception as ex:  # noqa: BLE001
-                            res.notes.append(f"{name}: yield function not evaluated ({type(ex).__name__})")
+                            res.fail(f"yield function raises behavior={name}", f"{type(ex).__name__}: {str(ex)[:150]}", ident)
                 # step dissipation: sigma : d eps - d psi >= 0 (backward Euler, convex free energy)
                 psi = float(np.asarray(beh.Compute_psi(fe(eps6), znew))[0, 0])
                 eps6_prev = np.asarray(beh.Compute_strain_6d(fe(eps_prev), z, dt))[0, 0] if dim == 2 and info["ps"] else (eps_prev if dim == 3 else np.array([eps_prev[0], eps_prev[1], 0, 0, 0, eps_prev[2]]))
@@ -189,9 +190,35 @@ def main():
                     s_tr = Cel @ (eps6 - zo[slot_ep])
                     lines.append(f"rr {fs(mu)} {fs(20.0)} {fs(sy)} {fs(svm(s_tr))} {fs(zo[slot_p][0])}")
                     expect.append(("rr", np.array([zn[slot_p][0] - zo[slot_p][0], svm(sig6), zn[slot_p][0]]), dict(ident)))
+                batch.append((np.array(eps, float), zo.copy(), np.array(eps_prev, float), sig.copy(), zn.copy()))
                 z = znew
                 eps_prev = eps
                 psi_prev = psi
+            # every integration point is an independent material point: the steps walked above, now handed over as the
+            # points of one field (elastic, yielding, compressive and tensile points side by side, each with its own state)
+            for shape_ in (("row", lambda a: a[None]), ("column", lambda a: a[::-1, None])):
+                if len(batch) < 2:
+                    break
+                lay_ = shape_[1]
+                eb, zb, pb = (FeArray.asfearray(lay_(np.array([b[i] for b in batch]))) for i in (0, 1, 2))
+                sref, zref = lay_(np.array([b[3] for b in batch])), lay_(np.array([b[4] for b in batch]))
+                identb = dict(ident0, batch=shape_[0], points=len(batch))
+                res.case((name, rep, "batch", shape_[0]))
+                try:
+                    sb, _, znb, okb = beh.Integrate(eb, zb, dt, pb)
+                    sb, znb = np.asarray(sb), np.asarray(znb)
+                    gap = np.abs(sb - sref).max()
+                    if bool(np.asarray(okb).all()) and gap > 2e-5 * sy:
+                        res.fail(f"a point of a field does not behave as that point alone behavior={name}",
+                                 f"Integrate on a field of {len(batch)} points ({shape_[0]}) differs from the same points integrated one by one: max |stress gap| = {gap:.3e}", identb)
+                    if dim == 2 and info["ps"] and bool(np.asarray(okb).all()):
+                        e6b = beh.Compute_strain_6d(eb, zb, dt)
+                        szz = np.asarray(beh.Compute_sigma(e6b, FeArray.asfearray(znb)))[..., 2]
+                        if np.abs(szz).max() > 1e-5 * sy:
+                            res.fail(f"out-of-plane stress in plane stress behavior={name}",
+                                     f"on a field of {len(batch)} points sigma_zz reaches {np.abs(szz).max():.3e} at point {int(np.abs(szz).argmax())}", identb)
+                except Exception as ex:  # noqa: BLE001
+                    res.fail(f"Integrate raises on a field behavior={name}", f"{type(ex).__name__}: {str(ex)[:150]}", identb)
         # both local solvers agree (where the spectral one applies)
         if not info.get("rate") and "Chaboche" not in name and "AF" not in name and "Prager" not in name:
             try:
@@ -203,7 +230,7 @@ def main():
                 if np.abs(a - b).max() > 1e-7 * (1 + np.abs(a).max()):
                     res.fail(f"local solvers disagree behavior={name}", f"Newton and spectral returns differ by {np.abs(a - b).max():.2e}", dict(behavior=name, strain=eps.tolist()))
             except Exception as ex:  # noqa: BLE001
-                res.notes.append(f"{name}: solver comparison not run ({type(ex).__name__}: {str(ex)[:60]})")
+                res.fail(f"local solver comparison raises behavior={name}", f"{type(ex).__name__}: {str(ex)[:120]}", dict(behavior=name))
 
     # ---------------- no internal variable = linear elasticity ----------------
     for dim, ps in ((3, False), (2, False), (2, True)):
